@@ -2,9 +2,11 @@
 package c12
 
 import (
+	"bufio"
 	"context"
 	"encoding/json"
 	"fmt"
+	"net"
 	"net/http"
 	"net/http/httptest"
 	"os"
@@ -49,42 +51,42 @@ func TestReplay(t *testing.T) { stats.RunReplays(t) }
 
 // Step is one request of a sequence.
 type Step struct {
-	Kind       string `json:"kind"` // direct, host, catchall, ignore-add, ignore-remove, redirect, notfound, nomethod, options, lookup, lookup-tsr
-	CloneWith  bool   `json:"clone_with,omitempty"`  // a middleware substitutes a CloneWith context
-	Clone      string `json:"clone,omitempty"`       // "", "before" (before the handler writes), "after"
-	NewTree    int    `json:"new_tree,omitempty"`    // >0: register a route (with that many params) first, so the tree and its pool are replaced
-	DropTree   bool   `json:"drop_tree,omitempty"`   // delete a previously added extra route first
+	Kind      string `json:"kind"`                 // direct, host, catchall, ignore-add, ignore-remove, redirect, notfound, nomethod, options, lookup, lookup-tsr
+	CloneWith bool   `json:"clone_with,omitempty"` // a middleware substitutes a CloneWith context
+	Clone     string `json:"clone,omitempty"`      // "", "before" (before the handler writes), "after"
+	NewTree   int    `json:"new_tree,omitempty"`   // >0: register a route (with that many params) first, so the tree and its pool are replaced
+	DropTree  bool   `json:"drop_tree,omitempty"`  // delete a previously added extra route first
 }
 
 type Case struct {
 	Steps []Step `json:"steps"`
 }
 
-var kinds = []string{"direct", "host", "catchall", "ignore-add", "ignore-remove", "redirect", "notfound", "nomethod", "options", "lookup", "lookup-tsr", "host-infix-tsr", "double-infix-tsr", "infix"}
+var kinds = []string{"direct", "host", "catchall", "ignore-add", "ignore-remove", "redirect", "notfound", "nomethod", "options", "lookup", "lookup-tsr", "host-infix-tsr", "double-infix-tsr", "infix", "hijack"}
 
 type expKey struct{}
 
 // exp is what the handlers of one request must observe.
 type exp struct {
-	tok     string
-	req     *http.Request
-	pattern string   // "" in special handlers
-	params  []string // expected keys, each with value tok
-	scope   fox.HandlerScope
-	status  int
-	size    int
-	clone   string
+	tok       string
+	req       *http.Request
+	pattern   string   // "" in special handlers
+	params    []string // expected keys, each with value tok
+	scope     fox.HandlerScope
+	status    int
+	size      int
+	clone     string
 	viaLookup bool
 }
 
 var tokRe = regexp.MustCompile(`t[0-9_]+x`)
 
 type harness struct {
-	f      *fox.Router
-	mu     sync.Mutex
-	errs   []string
-	clones []savedClone
-	extra  []string
+	f              *fox.Router
+	mu             sync.Mutex
+	errs           []string
+	clones         []savedClone
+	extra          []string
 	cloneWithCount int
 }
 
@@ -266,6 +268,19 @@ func newHarness() (*harness, error) {
 	f.MustHandle("PATCH", "{tok}.infix.example.com/d/*{tok2}/m/", rh, fox.WithIgnoreTrailingSlash(true))
 	f.MustHandle("GET", "/dd/*{tok}/m/*{tok2}/end/", rh, fox.WithIgnoreTrailingSlash(true))
 	f.MustHandle("GET", "/in/*{tok}/x/{tok2}", rh)
+	// a handler that takes over the connection before anything was written (websocket-upgrade shape)
+	f.MustHandle("GET", "/hj/{tok}", func(c fox.Context) {
+		e := h.inspect("hijacking handler", c, true)
+		if e == nil {
+			return
+		}
+		conn, _, err := c.Writer().Hijack()
+		if err != nil {
+			h.fail("hijacking handler [token %s]: Hijack on a writer that supports it returned %v", e.tok, err)
+			return
+		}
+		_ = conn.Close()
+	})
 	f.MustHandle("POST", "/m/{tok}", rh)
 	f.MustHandle("PUT", "/m/{tok}", rh)
 	return h, nil
@@ -294,6 +309,8 @@ func buildStep(s Step, tok string, n int) (*http.Request, *exp) {
 		path, e.pattern, e.params = "/dd/"+tok+"/m/"+tok+"/end", "/dd/*{tok}/m/*{tok2}/end/", []string{"tok", "tok2"}
 	case "infix":
 		path, e.pattern, e.params = "/in/"+tok+"/x/"+tok, "/in/*{tok}/x/{tok2}", []string{"tok", "tok2"}
+	case "hijack":
+		path, e.pattern, e.params, e.size = "/hj/"+tok, "/hj/{tok}", []string{"tok"}, -2
 	case "redirect":
 		path, e.scope, e.status, e.size = "/rd/"+tok, fox.RedirectHandler, http.StatusMovedPermanently, -1
 	case "notfound":
@@ -352,6 +369,13 @@ func (h *harness) run(s Step, tok string, n int) {
 		cc.Close()
 		return
 	}
+	if e.size == -2 {
+		a, b := net.Pipe()
+		h.f.ServeHTTP(&hijackable{ResponseRecorder: rec, conn: a}, req)
+		_ = a.Close()
+		_ = b.Close()
+		return
+	}
 	h.f.ServeHTTP(rec, req)
 	res := rec.Result()
 	if e.size >= 0 {
@@ -368,6 +392,16 @@ func (h *harness) run(s Step, tok string, n int) {
 			}
 		}
 	}
+}
+
+// hijackable is a recorder whose connection can be taken over.
+type hijackable struct {
+	*httptest.ResponseRecorder
+	conn net.Conn
+}
+
+func (w *hijackable) Hijack() (net.Conn, *bufio.ReadWriter, error) {
+	return w.conn, bufio.NewReadWriter(bufio.NewReader(w.conn), bufio.NewWriter(w.conn)), nil
 }
 
 // recheckClones inspects every stored clone after all later requests have run.
